@@ -20,7 +20,7 @@ inductive EndKind
   deriving DecidableEq, Repr, Inhabited
 
 /-- `FiberParams` as far as design reads or writes them (lengths in m, loss coefficient in dB/m at the
-reference frequency, `lumped` = total of the lumped losses in dB) plus the two attributes design attaches to
+reference frequency, `lumps` = the lumped losses as (position in km, loss in dB)) plus the two attributes design attaches to
 the element: `estimated_gain` (RamanFiber only; the Raman solver is not modelled, the value is an input) and
 `design_span_loss`. -/
 structure FiberP (α : Type) where
@@ -29,7 +29,7 @@ structure FiberP (α : Type) where
   conIn : Option α
   conOut : Option α
   attIn : α
-  lumped : α
+  lumps : List (α × α)
   raman : Bool
   ramanGain : Option α
   dsl : Option α
@@ -87,6 +87,9 @@ variable {α : Type} [Add α] [Sub α] [Mul α] [Div α] [Neg α] [NatCast α] [
 
 /-- Python `sum(iterable)`: left fold starting from 0 -/
 def sumLeft (l : List α) : α := l.foldl (· + ·) ((0:Nat) : α)
+
+/-- total of the lumped losses of a fibre, dB -/
+def FiberP.lumped (p : FiberP α) : α := sumLeft (p.lumps.map (fun l => l.2))
 
 /-- `Fiber.loss`: `loss_coef(ref) * length + con_in + con_out + att_in + sum(lumped)` -/
 def FiberP.loss (p : FiberP α) : α :=
@@ -149,12 +152,33 @@ structure SplitCfg (α : Type) where
   hi : α
   target : α
 
-/-- `split_fiber`: `n` identical spans named `uid_(k/n)`, each a copy of the fibre's parameters with the new length.
+/-- the literal `1e-3` -/
+def milli : α := ((1:Nat) : α) / ((1000:Nat) : α)
+
+/-- `_span_params`: the lumped losses of span number `k` (0-based) of spans of `len` metres: those whose position (km)
+lies in `[k·len·1e-3, (k+1)·len·1e-3)`, positions made relative to the start of the span -/
+def spanLumps (lumps : List (α × α)) (k : Nat) (len : α) : List (α × α) :=
+  let start := ((k : Nat) : α) * len * milli
+  let stop := ((k + 1 : Nat) : α) * len * milli
+  (lumps.filter (fun l => decide (start ≤ l.1) && decide (l.1 < stop))).map (fun l => (l.1 - start, l.2))
+
+/-- `split_fiber`: `n` spans of equal length named `uid_(k/n)`, each a copy of the fibre's parameters with the new
+length; the input attenuation `att_in` stays on the first span only and every lumped loss goes to the span that
+contains its position (`_span_params`, repaired behaviour: the unrepaired code repeated both on every span).
 The new elements are created as plain `elements.Fiber` even when the original was a RamanFiber (`raman := false`). -/
 def splitFiber (c : SplitCfg α) (uid : String) (p : FiberP α) : List (Elem α) :=
   let r := calcNewLength c.fuel p.length c.lo c.hi c.target
   if r.2 = 1 then [.fiber uid p]
-  else (List.range r.2).map (fun k => .fiber (splitName uid (k + 1) r.2) { p with length := r.1, raman := false })
+  else (List.range r.2).map (fun k => .fiber (splitName uid (k + 1) r.2)
+    { p with length := r.1, raman := false, attIn := (if k = 0 then p.attIn else ((0:Nat) : α)),
+             lumps := spanLumps p.lumps k r.1 })
+
+/-- the Fiber constructor rejects a lumped loss at position 0 of its span (NetworkTopologyError): a lumped loss that
+sits exactly on a span boundary of a fibre that gets split -/
+def splitRaises (c : SplitCfg α) (p : FiberP α) : Bool :=
+  let r := calcNewLength c.fuel p.length c.lo c.hi c.target
+  if r.2 = 1 then false
+  else (List.range r.2).any (fun k => (spanLumps p.lumps k r.1).any (fun l => decide (l.1 ≤ ((0:Nat) : α))))
 
 def splitElem (c : SplitCfg α) : Elem α → List (Elem α)
   | .fiber u p => splitFiber c u p
@@ -195,6 +219,28 @@ def addMissingLine (c : SplitCfg α) (ch : Chain α) : List (Elem α) :=
   addInline (addBooster ch.src ch.srcKind (addPreamp ch.dst ch.dstKind (splitLine c ch.line)))
 
 def addMissing (c : SplitCfg α) (ch : Chain α) : Chain α := { ch with line := addMissingLine c ch }
+
+
+/-! ### the graph view of a set of chains -/
+
+/-- consecutive pairs of a node sequence -/
+def pathEdges : List String → List (String × String)
+  | a :: b :: rest => (a, b) :: pathEdges (b :: rest)
+  | _ => []
+
+/-- the node sequence of a chain: source endpoint, the line elements, destination endpoint -/
+def chainNodes {α : Type} (ch : Chain α) : List String := ch.src :: (ch.line.map Elem.uid ++ [ch.dst])
+
+def chainEdges {α : Type} (ch : Chain α) : List (String × String) := pathEdges (chainNodes ch)
+
+/-- the directed graph (edge list over uids) of a topology given as a set of chains; endpoints are shared between chains -/
+def toGraph {α : Type} (chs : List (Chain α)) : List (String × String) := chs.flatMap chainEdges
+
+def inDeg (g : List (String × String)) (u : String) : Nat := g.countP (fun e => e.2 == u)
+def outDeg (g : List (String × String)) (u : String) : Nat := g.countP (fun e => e.1 == u)
+
+/-- which endpoint pairs are joined by a chain -/
+def endpointPairs {α : Type} (chs : List (Chain α)) : List (String × String) := chs.map (fun ch => (ch.src, ch.dst))
 
 /-! ### add_connector_loss -/
 
@@ -274,6 +320,10 @@ def addPadding (padding : α) (l : List (Elem α)) : List (Elem α) := ((runs l)
 /-- `add_missing_fiber_attributes` -/
 def addAttributes (dIn dOut eol padding : α) (l : List (Elem α)) : List (Elem α) :=
   addPadding padding (addConn dIn dOut eol l)
+
+/-- one chain after `add_missing_elements_in_network` + `add_missing_fiber_attributes` -/
+def completeChain (c : SplitCfg α) (dIn dOut eol padding : α) (ch : Chain α) : Chain α :=
+  { ch with line := addAttributes dIn dOut eol padding (addMissingLine c ch) }
 
 end
 end Gnpy.Chain
